@@ -7,13 +7,20 @@ Bridge C14: the definitions regenerated on every check run from the CURRENT Go s
                              and runPreloaded, sentinel mapping and deferred close of Run, decoderConf.Limit,
                              capacity of Sink, jsonline scanAmmos)
 
-are what `Pandora.Model.C14` (and the parts of `Pandora.Model.C08` it is built from) say.  A change of the filter
+  Pandora.Gen.C14Hdr        (area "c14hdr", round 2: uri readLine / uripost readBlock — the header-line branch, the map an
+                             entry gets, WHETHER IT IS A FRESH CLONE, the merge of the `headers` option; what Scan does
+                             with the accumulator when it wraps; jsonline Scan / readArray; raw Scan + RawAmmo.Setup;
+                             one iteration of util.EnrichRequestWithHeaders)
+
+are what `Pandora.Model.C14` (and the parts of `Pandora.Model.C08` it is built from) and `Pandora.Model.C14H` say.  A change of the filter
 function, of the place where a path applies it, of a loop guard or counter update, of a `select` result, of the
 sentinel mapping, of the deferred close, or of the bounds of the loading pass changes the regenerated text and
 breaks a lemma here; `Props/C14.lean` imports this file, so the property theorems are re-checked against the source.
 -/
 import Pandora.Gen.ChosenCases
+import Pandora.Gen.C14Hdr
 import Pandora.Model.C14
+import Pandora.Model.C14Hdr
 
 namespace Pandora.Bridge.C14
 open Pandora.Model.C08 hiding fullScan httpRun runFuel run
@@ -207,5 +214,54 @@ decoder, built after the switch -/
 theorem source_switch (n : Nat) :
     sourceOf n = (if n > 0 then "uriReadSeekCloser" else "fileReadSeekCloser") ∧ decoderAfterSourceSwitch = true ∧
     urisSeparator = "\n" := ⟨rfl, rfl, rfl⟩
+
+/-! ## round 2: headers (area "c14hdr") -/
+
+section Headers
+open Pandora.Model.C14H
+
+/-- every decoder gives every ammo a header map of its OWN (a clone, defined once, on the path to `Setup`): this is
+what lets the model treat the map of an entry as a value.  `false` for one of them = entries share a map that the
+decoder keeps writing to. -/
+theorem hdr_fresh_source :
+    Gen.C14Hdr.uriEntryHeaderFresh = true ∧ Gen.C14Hdr.uripostEntryHeaderFresh = true ∧
+    Gen.C14Hdr.jsonScanFresh = true ∧ Gen.C14Hdr.jsonArrayFresh = true ∧ Gen.C14Hdr.rawCommonFresh = true :=
+  ⟨rfl, rfl, rfl, rfl, rfl⟩
+
+/-- the map an entry of a uri / uripost source gets = the model's `mergeMissing` of the accumulator and the option -/
+theorem hdr_entry_source (acc cfg : HMap) :
+    Gen.C14Hdr.uriEntryHeader acc cfg = mergeMissing acc cfg ∧ Gen.C14Hdr.uripostEntryHeader acc cfg = mergeMissing acc cfg :=
+  ⟨rfl, rfl⟩
+
+/-- a header line is `Set` on the accumulator -/
+theorem hdr_line_source (acc : HMap) (kv : String × String) :
+    Gen.C14Hdr.uriHeaderLine acc kv.1 kv.2 = acc.setH kv ∧ Gen.C14Hdr.uripostHeaderLine acc kv.1 kv.2 = acc.setH kv :=
+  ⟨rfl, rfl⟩
+
+/-- Scan replaces the accumulator by an empty map when it wraps to the next pass -/
+theorem hdr_wrap_source : Gen.C14Hdr.uriWrapAcc = some [] ∧ Gen.C14Hdr.uripostWrapAcc = some [] := ⟨rfl, rfl⟩
+
+/-- one round of the model's `Scan` loop, written with the regenerated pieces only (uri; uripost's pieces are the same
+by the lemmas above) -/
+theorem scanLines_source (s : Source) (passes fuel : Nat) (d : LDec) :
+    scanLinesLoop s passes (fuel + 1) d =
+      (let acc := (s.block d.pos).foldl (fun a kv => Gen.C14Hdr.uriHeaderLine a kv.1 kv.2) d.acc
+       if d.pos < s.n then
+         (.ammo d.pos, { d with pos := d.pos + 1, acc := acc, ammoNum := d.ammoNum + 1,
+                                 last := Gen.C14Hdr.uriEntryHeader acc (cfgMap s.ch) })
+       else
+         let d := { d with acc := acc, passNum := d.passNum + 1 }
+         if passes ≠ 0 ∧ passes ≤ d.passNum then (.errPass, d)
+         else if d.ammoNum = 0 then (.errNoAmmo, d)
+         else scanLinesLoop s passes fuel { d with pos := 0, acc := Gen.C14Hdr.uriWrapAcc.getD d.acc }) := rfl
+
+/-- http/json: the option, the entry's own headers Set over it -/
+theorem hdr_json_source (s : Source) (i : Nat) : hdrJson s i = Gen.C14Hdr.jsonEntryHeader (cfgMap s.ch) (s.block i) := rfl
+
+/-- the request: `EnrichRequestWithHeaders` folds the regenerated step over the ammo's header map -/
+theorem hdr_enrich_source (k : Fmt) (e : EntryH) :
+    reqOf k e = e.hdr.foldl Gen.C14Hdr.enrichStep ((match k with | .uri | .uripost => "" | _ => entryHost), e.own) := rfl
+
+end Headers
 
 end Pandora.Bridge.C14
